@@ -31,7 +31,7 @@ impl syn::parse::Parse for ContainerAttributes {
                 "tag"               => this.tag               = input.parse()?,
                 "content"           => this.content           = input.parse()?,
                 "untagged"          => this.untagged          = true,
-                "default"           => this.default           = true,
+                "default"           => {this.default = true; let _/* = "path" */: EqValue = input.parse()?;},
                 "transparent"       => this.transparent       = true,
                 "from"              => this.from              = input.parse()?,
                 "try_from"          => this.try_from          = input.parse()?,
@@ -67,7 +67,7 @@ impl syn::parse::Parse for FieldAttributes {
             match &*i.to_string() {
                 "rename"              => this.rename              = input.parse()?,
                 "alias"               => this.alias               = input.parse()?,
-                "default"             => this.default             = true,
+                "default"             => {this.default = true; let _/* = "path" */: EqValue = input.parse()?;},
                 "flatten"             => this.flatten             = true,
                 "skip"                => this.skip                = true,
                 "skip_serializing"    => this.skip_serializing    = true,
